@@ -134,6 +134,40 @@ def judge_log(log, T, N, panics, drop) -> list[tuple[str, str]]:
     return bad
 
 
+# attribute layouts for the whole-example comparison of the Python level (name, dtype, shape)
+LAYOUTS = [
+    [("a", "int8", (3,)), ("b", "bool", (2,)), ("c", "uint8", (4,)), ("id", "int64", (1,))],
+    [("id", "int64", (1,)), ("h", "float16", (2, 2)), ("s", "int16", ()), ("u", "uint32", (1, 3)), ("d", "float64", (2,))],
+    [("z", "uint64", (2,)), ("f", "float32", ()), ("id", "int64", (1,)), ("m", "int8", (2, 2)), ("w", "uint16", (3,))],
+    [("t", "bool", ()), ("id", "int64", (1,)), ("i", "int32", (2, 1, 2)), ("k", "int8", ())],
+]
+
+
+def layout_example(decl, i: int) -> dict:
+    """Deterministic values that use the whole range of each dtype (negative, high bit set, True and False)."""
+    import numpy as np
+    rng = np.random.default_rng(1000 + i)
+    ex = {}
+    for n, d, s in decl:
+        dt = np.dtype(d)
+        size = int(np.prod(s)) if len(s) else 1
+        if n == "id":
+            v = np.array([i], dtype=dt)
+        elif dt.kind == "b":
+            v = (rng.integers(0, 2, size=size) == 1).reshape(s)
+        elif dt.kind in "iu":
+            raw = rng.integers(0, 256, size=size * dt.itemsize, dtype=np.uint8).tobytes()
+            v = np.frombuffer(raw, dtype=dt).reshape(s).copy()
+            if i % 2 and dt.kind == "i":
+                v = -np.abs(v) if size else v
+                v = np.asarray(v, dtype=dt).reshape(s)
+        else:
+            v = (rng.standard_normal(size) * 100).astype(dt).reshape(s)
+        ex[n] = np.asarray(v, dtype=dt)
+    return ex
+
+
+
 def python_level(task: dict) -> dict:
     """Worker: Rust-backed iterator vs pure-Python reader on one dataset."""
     out = {"error": None, "runs": 0, "problems": [], "sample": None}
@@ -217,6 +251,40 @@ def python_level(task: dict) -> dict:
             except BaseException as exc:  # pylint: disable=broad-except
                 out["problems"].append(("overlapping", f"overlapping iterators ({T} threads) raised "
                                         f"{type(exc).__name__}: {str(exc)[:160]}"))
+        # "all attribute layouts": the same comparison on whole examples (dtype, shape and bytes of every attribute) for
+        # declarations other than the id/payload pair above - one-byte, two-byte and eight-byte items, booleans,
+        # scalars, rank 2, attributes in either order
+        if task.get("layout") is not None:
+            import numpy as np
+            from sedpack.io.metadata import Attribute, DatasetStructure
+            decl = LAYOUTS[task["layout"] % len(LAYOUTS)]
+            st = DatasetStructure(saved_data_description=[Attribute(name=n, dtype=d, shape=s) for n, d, s in decl],
+                                  shard_file_type="fb", compression=comp, examples_per_shard=eps,
+                                  hash_checksum_algorithms=("md5",))
+            dl = Dataset.create(tmp / "L", Metadata(description="c15 layouts"), st)
+            with dl.filler() as f:
+                for i in range(1, n_ex + 1):
+                    f.write_example(values=layout_example(decl, i), split="train")
+            dl = Dataset(tmp / "L")
+
+            def whole(iface, T):
+                return [{k: (str(np.asarray(v).dtype), tuple(np.asarray(v).shape), np.asarray(v).tobytes().hex())
+                         for k, v in e.items()}
+                        for e in readers.iterate(dl, iface, "train", repeat=False, shuffle=0, file_parallelism=T)]
+            want = whole("numpy", 1)
+            wrote = [{n: (d, tuple(s), np.asarray(layout_example(decl, i)[n], dtype=d).tobytes().hex())
+                      for n, d, s in decl} for i in range(1, n_ex + 1)]
+            if want != wrote:
+                out["problems"].append(("layout-python", f"{comp or 'none'} layout {decl}: the Python reader yields "
+                                        f"{want[:1]} ..., written {wrote[:1]} ..."))
+            for T in task["threads"][:3]:
+                got = whole("rust", T)
+                out["runs"] += 1
+                if got != want:
+                    bad = next((i for i, (a, b) in enumerate(zip(got, want)) if a != b), min(len(got), len(want)))
+                    out["problems"].append(("layout", f"{comp or 'none'} layout {decl}, {nshards} shards, {T} threads: "
+                                            f"example {bad}: rust yields {got[bad] if bad < len(got) else None}, "
+                                            f"python {want[bad] if bad < len(want) else None}"))
         out["sample"] = {"compression": comp, "shards": nshards, "examples": n_ex, "threads": task["threads"]}
     except Exception:  # pylint: disable=broad-except
         out["error"] = traceback.format_exc()
@@ -398,7 +466,7 @@ def run(ctx: Ctx) -> None:
                 continue
             tasks.append({"compression": comp, "nshards": nsh, "eps": 1 + (i + ci) % 3,
                           "threads": [1, 2, 3, 8] if q else [1, 2, 3, 4, 5, 8],
-                          "prefixes": [1, 2] if q else [1, 2, 3, 5]})
+                          "prefixes": [1, 2] if q else [1, 2, 3, 5], "layout": i + ci})
     # two datasets (6 shards, uncompressed and LZ4) are also read by a consumer that pauses for 6 s (T: 6 s and 35 s)
     for t in tasks:
         if t["nshards"] == 6 and t["compression"] in ("", "LZ4", "GZIP"):
